@@ -65,6 +65,7 @@ class Ctx:
         self.extra_axioms = []  # [(node, rel)] assumed facts (domain of ops)
         self.n_compare = 0
         self.rng = None
+        self.allow_ties = False  # tie runs: an exactly tied order comparison is recorded as '==' and the run goes on
 
     def set_model(self, model):
         self.model = dict(model)
@@ -623,8 +624,9 @@ class S:
 
 # --------------------------------------------------------------------------- concolic comparison
 def _sign_rel(v):
-    # an order comparison that is exactly tied under the model is a kink/tie point: outside every claim
-    return ">" if v > 0 else ("<" if v < 0 else "tie")
+    # an order comparison that is exactly tied under the model is a kink/tie point: the ordinary runs discard it,
+    # the dedicated tie runs (CTX.allow_ties) record the equality and continue exactly as NumPy does
+    return ">" if v > 0 else ("<" if v < 0 else ("==" if CTX.allow_ties else "tie"))
 
 
 def CTX_compare(op, a, b):
